@@ -49,6 +49,7 @@ pub const KINDS: &[&str] = &[
     "cw_phantom",      // 42 (errors whose first L syndromes equal those of a smaller, different error pattern)
     "cw_syndrome",     // 43 (a crafted syndrome vector realised in the EC part: LFSR-consistent with discrepancies)
     "cw_coset",        // 44 (errors on complete cosets of a multiplicative subgroup: binomial / sparse locators)
+    "history",         // 45 (separator between consecutive calls of a history)
 ];
 
 pub fn kind_id(name: &str) -> u8 {
@@ -84,6 +85,10 @@ pub enum Op {
     GeoMirror,
     GeoInvert,
     GeoReplace { bits: Vec<bool>, w: u32 },
+    /// Separator, not a fault: the faults before it describe an EARLIER call of the consumer on the same
+    /// producer output (a history: call, call, ..., call); the faults after the last separator are the call
+    /// whose outcome is checked. Exercises state that a decoder might carry from one call to the next.
+    NextCall,
 }
 
 #[derive(Clone, Copy, Debug, PartialEq, Eq)]
@@ -97,7 +102,7 @@ impl Op {
     pub fn stage(&self) -> Stage {
         match self {
             Op::SndXor { .. } | Op::SndSet { .. } | Op::SndSwap { .. } | Op::SndDup { .. } => Stage::S1,
-            Op::CwXor { .. } | Op::CwSet { .. } => Stage::S2,
+            Op::CwXor { .. } | Op::CwSet { .. } | Op::NextCall => Stage::S2,
             _ => Stage::S4,
         }
     }
@@ -388,6 +393,7 @@ fn op_to_json(op: &Op) -> J {
         Op::GeoRot { q } => a("geo_rot", vec![J::i(*q as usize)]),
         Op::GeoMirror => a("geo_mirror", vec![]),
         Op::GeoInvert => a("geo_invert", vec![]),
+        Op::NextCall => a("next_call", vec![]),
         Op::GeoReplace { bits, w } => a(
             "geo_replace",
             vec![J::Str(json::bits_str(bits)), J::i(*w as usize)],
@@ -433,6 +439,7 @@ fn op_from_json(j: &J) -> Result<Op, String> {
         "geo_mirror" => Op::GeoMirror,
         "geo_invert" => Op::GeoInvert,
         "geo_replace" => Op::GeoReplace { bits: json::unbits(s(1)?), w: n(2)? },
+        "next_call" => Op::NextCall,
         other => return Err(format!("unknown op {}", other)),
     })
 }
@@ -613,6 +620,7 @@ impl Trace {
                     h.u32s(&[20, *w]);
                     h.bools(bits);
                 }
+                Op::NextCall => h.u32(21),
             }
         }
         h.0
